@@ -437,3 +437,91 @@ class rocc_lower_acc_setup_contract:
 
     def canary(sh, a, ret):
         check("canary: no instruction is emitted", len([o for o in ret if isinstance(o, llvm.InlineAsmOp)]) == 0)
+
+
+# =====================================================================================
+# DeleteAllStates: no state-typed value survives; everything else keeps its position
+# =====================================================================================
+from xdsl.ir import Block, Operation, Region  # noqa: E402
+from xdsl.pattern_rewriter import PatternRewriter  # noqa: E402
+
+import snaxc.transforms.convert_accfg_to_csr as a2c  # noqa: E402
+
+
+class AnyOp(Operation):
+    """view of an arbitrary op with the generic `create` interface"""
+
+    def __init__(self, operands, result_types, regions):
+        self._init_op(operands, [None for _ in result_types], list(result_types))
+        self.regions = list(regions)
+        for r in self.regions:
+            r.parent = self
+
+    @classmethod
+    def create(cls, operands=(), result_types=(), properties=None, attributes=None, successors=(), regions=()):
+        o = cls(list(operands), list(result_types), list(regions))
+        o.properties = properties
+        o.attributes = attributes
+        return o
+
+
+def _masks2(n):
+    return ["".join(m) for m in itertools.product("sv", repeat=n)]  # s = state-typed, v = ordinary value
+
+
+@contract
+class DeleteAllStates_contract:
+    target = "snaxc.transforms.convert_accfg_to_csr.DeleteAllStates.match_and_rewrite"
+    shapes = [dict(ops=o, res=r, args=g) for o in ["", "v", "s", "sv", "vsv"] for r in ["", "s", "v", "vs", "svv", "vsv", "vvs", "svsv"] for g in ["", "vs"]]
+    quick = lambda sh: len(sh["ops"]) <= 2 or sh["res"] in ("svv", "vsv")
+    native = False
+    total = True
+
+    def args(sh, sym):
+        st = accfg.StateType("acc")
+        operands = [mk_ident_value(100 + k, st if c == "s" else i32) for k, c in enumerate(sh["ops"])]
+        rtypes = [st if c == "s" else i32 for c in sh["res"]]
+        blk = Block(arg_types=[st if c == "s" else i32 for c in sh["args"]])
+        op = AnyOp(operands, rtypes, [Region([blk])])
+        outer = Block([op])
+        holder = AnyOp([], [], [Region([outer])])
+        return [op, operands, blk]
+
+    def run(sh, a):
+        op = a[0]
+        rw = PatternRewriter(op)
+        a2c.DeleteAllStates().match_and_rewrite(op, rw)
+        return rw.log
+
+    def ensures(sh, a, ret):
+        op, operands, blk = a
+        st = accfg.StateType("acc")
+        reps = [e for e in ret if e[0] == "replace_op"]
+        final = reps[-1][2][0] if len(reps) > 0 else op
+        keep_ops = [v for v, c in zip(operands, sh["ops"]) if c == "v"]
+        check("no state-typed operand survives; the other operands keep their order", len(final.operands) == len(keep_ops) and all(x is y for x, y in zip(final.operands, keep_ops)))
+        check("no state-typed result survives", all(not (r.type == st) for r in final.results) and len(final.results) == len([c for c in sh["res"] if c == "v"]))
+        if "s" in sh["res"]:
+            last = reps[-1]
+            old = last[1]
+            mapping = last[3]
+            check("the result mapping has one entry per old result", mapping is not None and len(mapping) == len(sh["res"]))
+            rank = 0
+            for i, c in enumerate(sh["res"]):
+                if c == "s":
+                    check(f"old result {i} (state) is dropped", mapping[i] is None)
+                else:
+                    check(f"old result {i} is replaced by the new op's result of the same rank among the surviving results", mapping[i] is final.results[rank])
+                    rank += 1
+        erased = [e[1] for e in ret if e[0] == "erase_block_argument"]
+        if "s" in sh["res"]:
+            # the regions moved to the replacement op, which the greedy driver visits again: erasing its block arguments is
+            # deferred to that visit (driver behaviour, not covered); here only: nothing but state-typed arguments is erased
+            check("only state-typed block arguments are ever erased", all(x.type == st for x in erased))
+        else:
+            check("exactly the state-typed block arguments are erased", len(erased) == len([c for c in sh["args"] if c == "s"])
+                  and all(any(x is arg for x in erased) == (arg.type == st) for arg in blk.args))
+        check("an op without state-typed operands or results is not replaced", ("s" in sh["ops"] or "s" in sh["res"]) or len(reps) == 0)
+
+    def canary(sh, a, ret):
+        check("canary: nothing is ever rewritten", len(ret) == 0)
